@@ -365,7 +365,7 @@ func inSchedReset() { functions.VerifResetGlobals() }
 func (c06) Describe(tier string) fw.Description {
 	return fw.Description{
 		Level: "model_checking",
-		Rule: "(a) all generated expression ASTs: binary arithmetic over 7 atoms, three-operand arithmetic without parentheses (precedence) and with both parenthesisations over 5 atoms x 16 operator pairs, comparisons, string comparisons, NOT / AND / OR / mixed precedence over 6 conditions (all pairs and triples), searched and simple CASE with/without ELSE; printed in textual variants (keyword case, doubled spaces, redundant outer parentheses); contexts SELECT e AS r and WHERE e; each on 45 rows (a in int 2, float 2.5, -1, NULL, absent; b in 2, 0.5, NULL; s in 'x','1',NULL) through EmitSync; oracle = ref.Expr (NULL-propagating arithmetic, comparisons with NULL not true, three-valued AND/OR/NOT, first true CASE branch); (b) history: every query also evaluated with the rows in reverse order after VerifResetGlobals() and compared row by row; (c) functions: see extra.functions_*; a case = (expression text, context, row); non-trivial = reference defined for the row (canonical text variant)",
+		Rule: "(a) all generated expression ASTs: binary arithmetic over 7 atoms, three-operand arithmetic without parentheses (precedence) and with both parenthesisations over 5 atoms x 16 operator pairs, comparisons, string comparisons, NOT / AND / OR / mixed precedence over 6 conditions (all pairs and triples), searched and simple CASE with/without ELSE; printed in textual variants (keyword case, doubled spaces, redundant outer parentheses); contexts SELECT e AS r and WHERE e; each on 45 rows (a in int 2, float 2.5, -1, NULL, absent; b in 2, 0.5, NULL; s in 'x','1',NULL) through EmitSync; oracle = ref.Expr (NULL-propagating arithmetic, comparisons with NULL not true, three-valued AND/OR/NOT, first true CASE branch); (b) history: every query also evaluated with the rows in reverse order after VerifResetGlobals() and compared row by row; (c) functions: see extra.functions_*; numbers cast to text or concatenated read back exactly; eight case-variant expression pairs in both orders against their value in a fresh process; a case = (expression text, context, row); non-trivial = reference defined for the row (canonical text variant)",
 		Bounds:      map[string]any{"arith_atoms": 7, "three_operand_atoms": 5, "conditions": 6, "rows": 45},
 		Assumptions: []string{"text or boolean operands of arithmetic and mixed-type comparisons are outside 'SQL semantics over float64': only totality and history-independence are asserted there", "an UNKNOWN boolean in SELECT position may be reported as false or NULL", "division by zero excluded"},
 	}
